@@ -2022,3 +2022,105 @@ Proof.
   intros i k c Hne. unfold first_key_choice. destruct (c_sd c) as [|[j v] sd]; [contradiction|].
   unfold zd_mem. cbn. rewrite Nat.eqb_refl. reflexivity.
 Qed.
+
+(* ================================================================== *)
+(* Part 6: soundness of the executable cross-check scratch_b             *)
+Lemma list_eqb_sound {A} (e : A -> A -> bool) : (forall x y, e x y = true -> x = y) ->
+  forall l1 l2, list_eqb e l1 l2 = true -> l1 = l2.
+Proof.
+  intros He. induction l1 as [|x l1 IH]; intros [|y l2]; cbn; try congruence.
+  intros H. apply andb_true_iff in H. destruct H as [H1 H2]. f_equal; [apply He, H1|apply IH, H2].
+Qed.
+
+Lemma eqb_row_sound (r1 r2 : row) : eqb r1 r2 = true -> r1 = r2.
+Proof.
+  destruct r1 as [i1 [l1 [s1 f1]]], r2 as [i2 [l2 [s2 f2]]].
+  cbv [eqb Eqb_prod Eqb_list Eqb_nat Eqb_Z fst snd]. intros H.
+  apply andb_true_iff in H. destruct H as [H1 H]. apply andb_true_iff in H. destruct H as [H2 H].
+  apply andb_true_iff in H. destruct H as [H3 H4].
+  apply (list_eqb_sound Nat.eqb (fun x y => proj1 (Nat.eqb_eq x y))) in H1.
+  apply (list_eqb_sound Nat.eqb (fun x y => proj1 (Nat.eqb_eq x y))) in H2.
+  apply Z.eqb_eq in H3. apply Z.eqb_eq in H4. subst. reflexivity.
+Qed.
+
+Lemma eqb_rows_sound (l1 l2 : list row) : eqb l1 l2 = true -> l1 = l2.
+Proof. apply (list_eqb_sound _ eqb_row_sound). Qed.
+
+Lemma eqb_optZ_sound (a b : option Z) : eqb a b = true -> a = b.
+Proof.
+  destruct a as [a|], b as [b|]; cbv [eqb Eqb_option Eqb_Z]; try congruence.
+  intros H. apply Z.eqb_eq in H. congruence.
+Qed.
+
+(* what a successful scratch_b guarantees for a cache entry (key xs, cost c): the table is
+   the tree's table for sl0 ++ xs, the three predictions are the tree's figures, and the
+   reductions are their definitions.  (It also compares size_dict and _where as sorted
+   lists; nothing is claimed from those two comparisons.) *)
+Theorem scratch_b_sound n sl0 t xs c : (forall j, 0 < zget j (szd n)) ->
+  scratch_b n sl0 t (xs, c) = true ->
+  let sl := sl0 ++ slice_all xs in
+  c_tab c = tree_rows n sl t /\
+  c_nsl c * multiplicity n sl0 = multiplicity n sl /\
+  cc_total_flops c * multiplicity n sl0 = total_flops n sl t /\
+  match cc_size c with Some s => s | None => 0 end = max_size n sl t /\
+  c_orig c = sum_flops n sl0 t /\
+  forall j, In j (zd_keys (c_sd c)) ->
+    zd_get0 j (c_fred c) = fred_def (c_sd c) (tree_rows n sl t) j /\
+    zd_get0 j (c_wred c) = wred_def (c_sd c) (tree_rows n sl t) j.
+Proof.
+  intros Hpos H. cbn zeta. unfold scratch_b in H. cbn [fst snd] in H.
+  repeat (apply andb_true_iff in H; let H' := fresh "B" in destruct H as [H H']).
+  apply eqb_rows_sound in H. apply Z.eqb_eq in B4, B3, B2. apply eqb_optZ_sound in B1.
+  assert (Em : c_nsl c * multiplicity n sl0 = multiplicity n (sl0 ++ slice_all xs))
+    by (rewrite multiplicity_slice_all, B3; ring).
+  split; [exact H|]. split; [exact Em|]. split; [|split; [|split; [exact B2|]]].
+  - unfold cc_total_flops, total_flops. rewrite <- Em, B4. ring.
+  - rewrite B1, tree_rows_sizes. unfold max_size. symmetry. apply zmax_list_opt.
+    intros x Hx. apply in_map_iff in Hx. destruct Hx as (bt & <- & _).
+    unfold node_size. pose proof (size_of_pos (szd n) (lkeys (node_legs n (sl0 ++ slice_all xs) (fst bt) (snd bt))) Hpos). lia.
+  - intros j Hj. rewrite forallb_forall in B. specialize (B j Hj).
+    apply andb_true_iff in B. destruct B as [B _]. apply andb_true_iff in B. destruct B as [E1 E2].
+    apply Z.eqb_eq in E1, E2. split; assumption.
+Qed.
+
+(* ================================================================== *)
+(* Part 7: the float comparison of the overhead agrees with the exact one *)
+From Coq Require Import QArith.
+Section FloatCompare.
+(* float(a / b) for Python ints a, b (true division), as a rational *)
+Variable fdiv : Z -> Z -> Q.
+Definition P53 : positive := Z.to_pos FP.
+Definition quot (a b : Z) : Q := (a # Z.to_pos b)%Q.
+(* rounding to nearest is monotone: an exact quotient below a float stays below it *)
+Hypothesis fdiv_below : forall a b (tf : Q), (1 <= b)%Z -> (quot a b <= tf)%Q -> (fdiv a b <= tf)%Q.
+(* int / int is correctly rounded: relative error at most 2^-53 in the normal range *)
+Hypothesis fdiv_err : forall a b, (1 <= a < FB)%Z -> (1 <= b < FB)%Z ->
+  (quot a b * (1 - (1 # P53)) <= fdiv a b)%Q.
+
+Lemma Zpos_P53 : Zpos P53 = FP.
+Proof. reflexivity. Qed.
+
+Theorem over_float_agrees c num den :
+  over_safe_b c (num, den) = true ->
+  let tf := quot num den in      (* the float target, exactly *)
+  ((tf < fdiv (cc_total_flops c) (c_orig c))%Q <-> over_gt c (num, den) = true).
+Proof.
+  unfold over_safe_b, over_gt. cbn [fst snd]. intros H. cbn zeta.
+  set (a := cc_total_flops c) in *. set (b := c_orig c) in *.
+  repeat (apply andb_true_iff in H; let H' := fresh "B" in destruct H as [H H']).
+  apply Z.leb_le in H, B2. apply Z.ltb_lt in B3, B1, B0.
+  assert (Eb : Zpos (Z.to_pos b) = b) by (apply Z2Pos.id; lia).
+  assert (Ed : Zpos (Z.to_pos den) = den) by (apply Z2Pos.id; lia).
+  split.
+  - intros Hlt. apply Z.ltb_lt. destruct (Z.lt_ge_cases (num * b) (a * den)) as [Hc|Hc]; [exact Hc|exfalso].
+    assert (Hle : (quot a b <= quot num den)%Q).
+    { unfold quot, Qle. cbn [Qnum Qden]. rewrite Eb, Ed. lia. }
+    pose proof (fdiv_below a b (quot num den) B2 Hle) as Hf.
+    apply (Qlt_irrefl (quot num den)). eapply Qlt_le_trans; [exact Hlt|exact Hf].
+  - intros Hgt. apply Z.ltb_lt in Hgt.
+    apply orb_true_iff in B. destruct B as [Bz|Bz]; [apply Z.leb_le in Bz; lia|]. apply Z.ltb_lt in Bz.
+    eapply Qlt_le_trans; [|apply fdiv_err; lia].
+    unfold quot, Qlt, Qmult, Qminus, Qplus, Qopp. cbn [Qnum Qden].
+    rewrite !Pos2Z.inj_mul, Eb, Ed, Zpos_P53. nia.
+Qed.
+End FloatCompare.
